@@ -65,6 +65,7 @@ fn main() {
         "breaker-replay" => breaker::replay(rest),
         "trend-replay" => trend::replay(rest),
         "ctx-replay" => contexts::replay(rest),
+        "ckcoord-replay" => contexts::coord_replay(rest),
         "ctx-load" => contexts::load(rest),
         "pathfs-replay" => pathfs::replay(rest),
         "inject-replay" => inject::replay(rest),
